@@ -269,6 +269,14 @@ func init() {
 		return in.F.mk("=", BoolSort, 0, 0, x, y)
 	})
 	v("Yield", func(in *Interp, a []Value) Value { in.sched.yield(); return nil })
+	v("Preemptible", func(in *Interp, a []Value) Value {
+		on, ok := a[0].(*Term)
+		if !ok || !on.IsConst() {
+			panic(&EngineError{msg: "Preemptible needs a constant argument"})
+		}
+		in.sched.noPreempt = on.IsFalse()
+		return nil
+	})
 	v("Settle", func(in *Interp, a []Value) Value {
 		s := in.sched
 		me := in.cur
